@@ -87,6 +87,15 @@ Definition lib_fn (name : bytes) : option fn_def :=
   else if is "echo_ab" then Some (simple [(KField, TArray TBool)] [] (TArray TBool) first_ok)
   else if is "echo_mb" then Some (simple [(KField, TMap TBool)] [] (TMap TBool) first_ok)
   else if is "echo_b" then Some (simple [(KField, TBool)] [] TBool first_ok)
+  else if is "tagb" then
+    (* a Bool parameter (so the argument may be a whole comparison) and a Bytes result
+       (so the call can stand on the left of `in $list`, `contains`, ...) *)
+    Some (simple [(KField, TBool)] [] TBytes
+            (fun l => match l with
+                      | VOk (VBool true) :: _ => Some (Some (VBytes [84]%N))
+                      | VOk (VBool false) :: _ => Some (Some (VBytes [70]%N))
+                      | _ => Some None
+                      end))
   else if is "count" then
     Some (simple [(KField, TArray TBytes)] [] TInt
             (fun l => match l with VOk (VArray _ x) :: _ => Some (Some (VInt (Z.of_nat (List.length x)))) | _ => Some None end))
